@@ -85,6 +85,9 @@ func genPlan(t *rapid.T, o genOpts) *world.Plan {
 		scn.Flavor[i] = pick(t, "flavor", o.flavors)
 		scn.LiquidBackend[i] = pick(t, "backend", o.backends)
 	}
+	if o.adapters == 0 {
+		o.adapters = 40 // default share of lnd-flavoured nodes running the real adapter (tier 2); negative = none
+	}
 	for i := 0; i < 2; i++ {
 		if o.adapters > 0 && scn.Flavor[i] == "lnd" && rapid.IntRange(0, 99).Draw(t, "adapter") < o.adapters {
 			scn.Adapter[i] = "lnd"
